@@ -231,9 +231,15 @@ func decodeBytecodeV2(bc *Bytecode, r *bytes.Buffer) error {
 				return err
 			}
 
-			sz := obj.(ugo.Int)
+			sz, ok := obj.(ugo.Int)
+			if !ok {
+				return errors.New("invalid file set size")
+			}
 			if sz <= 0 {
 				continue
+			}
+			if int64(sz) > int64(r.Len()) {
+				return io.ErrUnexpectedEOF
 			}
 
 			data := make([]byte, sz)
@@ -252,21 +258,33 @@ func decodeBytecodeV2(bc *Bytecode, r *bytes.Buffer) error {
 				return err
 			}
 
-			bc.Main = f.(*ugo.CompiledFunction)
+			main, ok := f.(*ugo.CompiledFunction)
+			if !ok {
+				return errors.New("invalid main function")
+			}
+			bc.Main = main
 		case 2:
 			obj, err := DecodeObject(r)
 			if err != nil {
 				return err
 			}
 
-			bc.Constants = obj.(ugo.Array)
+			consts, ok := obj.(ugo.Array)
+			if !ok {
+				return errors.New("invalid constants")
+			}
+			bc.Constants = consts
 		case 3:
 			num, err := DecodeObject(r)
 			if err != nil {
 				return err
 			}
 
-			bc.NumModules = int(num.(ugo.Int))
+			n, ok := num.(ugo.Int)
+			if !ok {
+				return errors.New("invalid number of modules")
+			}
+			bc.NumModules = int(n)
 		default:
 			return errors.New("unknown field:" + strconv.Itoa(int(field)))
 		}
@@ -297,7 +315,10 @@ func DecodeObject(r io.Reader) (ugo.Object, error) {
 			return nil, err
 		}
 
-		buf := make([]byte, 2+size)
+		if size > binary.MaxVarintLen64 {
+			return nil, errors.New("invalid number size")
+		}
+		buf := make([]byte, 2+int(size))
 		buf[0] = btype
 		buf[1] = size
 		if size > 0 {
@@ -352,15 +373,34 @@ func DecodeObject(r io.Reader) (ugo.Object, error) {
 		}
 
 		n := 1 + len(readBytes)
-		buf := make([]byte, n+int(value))
+		var buf []byte
+		if lr, ok := r.(interface{ Len() int }); ok {
+			// do not trust the size, allocate only if the data is there
+			if value > int64(lr.Len()) {
+				return nil, io.ErrUnexpectedEOF
+			}
+			buf = make([]byte, n+int(value))
+			if value > 0 {
+				if _, err = io.ReadFull(r, buf[n:]); err != nil {
+					return nil, err
+				}
+			}
+		} else {
+			// unknown amount of data, the buffer grows with the data actually read
+			var b bytes.Buffer
+			b.Write(make([]byte, n))
+			if value > 0 {
+				if _, err = io.CopyN(&b, r, value); err != nil {
+					if err == io.EOF {
+						err = io.ErrUnexpectedEOF
+					}
+					return nil, err
+				}
+			}
+			buf = b.Bytes()
+		}
 		buf[0] = btype
 		copy(buf[1:], readBytes)
-
-		if value > 0 {
-			if _, err = io.ReadFull(r, buf[n:]); err != nil {
-				return nil, err
-			}
-		}
 
 		switch btype {
 		case binCompiledFunctionV1:
@@ -416,6 +456,9 @@ func DecodeObject(r io.Reader) (ugo.Object, error) {
 		var v ugo.Object
 		if err := gob.NewDecoder(r).Decode(&v); err != nil {
 			return nil, err
+		}
+		if v == nil {
+			return nil, errors.New("decode error: nil object")
 		}
 		return v, nil
 	}
@@ -667,10 +710,10 @@ func (o *String) UnmarshalBinary(data []byte) error {
 		return nil
 	}
 
-	ub := 1 + offset + int(size)
-	if len(data) < ub {
+	if size > int64(len(data)-1-offset) {
 		return errors.New("invalid ugo.String data size")
 	}
+	ub := 1 + offset + int(size)
 
 	*o = String(data[1+offset : ub])
 	return nil
@@ -709,10 +752,10 @@ func (o *Bytes) UnmarshalBinary(data []byte) error {
 		return nil
 	}
 
-	ub := 1 + offset + int(size)
-	if len(data) < ub {
+	if size > int64(len(data)-1-offset) {
 		return errors.New("invalid ugo.Bytes data size")
 	}
+	ub := 1 + offset + int(size)
 
 	*o = []byte(string(data[1+offset : ub]))
 	return nil
@@ -767,10 +810,10 @@ func (o *Array) UnmarshalBinary(data []byte) error {
 	if size <= 0 {
 		return nil
 	}
-	ub := 1 + offset + int(size)
-	if len(data) < ub {
+	if size > int64(len(data)-1-offset) {
 		return errors.New("invalid ugo.Array data size")
 	}
+	ub := 1 + offset + int(size)
 
 	rd := bytes.NewReader(data[1+offset : ub])
 	var vi varintConv
@@ -781,6 +824,10 @@ func (o *Array) UnmarshalBinary(data []byte) error {
 		return err
 	}
 
+	// every element takes at least one byte
+	if length < 0 || length > int64(rd.Len()) {
+		return errors.New("invalid ugo.Array length")
+	}
 	arr := make([]ugo.Object, 0, int(length))
 	for rd.Len() > 0 {
 		o, err := DecodeObject(rd)
@@ -842,7 +889,7 @@ func (o *Map) UnmarshalBinary(data []byte) error {
 		return nil
 	}
 
-	if len(data) < 1+offset+int(size) {
+	if size > int64(len(data)-1-offset) {
 		return errors.New("invalid ugo.Map data size")
 	}
 
@@ -851,6 +898,10 @@ func (o *Map) UnmarshalBinary(data []byte) error {
 	var vi varintConv
 	vi.reader = rd
 	m := *o
+	if m == nil {
+		m = Map{}
+		*o = m
+	}
 
 	for rd.Len() > 0 {
 		value, err := vi.read()
@@ -991,6 +1042,10 @@ func (o *CompiledFunction) UnmarshalBinary(data []byte) error {
 		return nil
 	}
 
+	if size > int64(len(data)-1-offset) {
+		return errors.New("invalid ugo.CompiledFunction data size")
+	}
+
 	rd := bytes.NewReader(data[1+offset : 1+offset+int(size)])
 	var vi varintConv
 	vi.reader = rd
@@ -1018,7 +1073,11 @@ func (o *CompiledFunction) UnmarshalBinary(data []byte) error {
 			if err != nil {
 				return err
 			}
-			o.Instructions = obj.(ugo.Bytes)
+			insts, ok := obj.(ugo.Bytes)
+			if !ok {
+				return errors.New("invalid instructions")
+			}
+			o.Instructions = insts
 		case 3:
 			o.Variadic = true
 		case 4:
@@ -1029,6 +1088,10 @@ func (o *CompiledFunction) UnmarshalBinary(data []byte) error {
 				return err
 			}
 
+			// every key value pair takes at least two bytes
+			if length < 0 || length/2 > int64(rd.Len())/2 {
+				return errors.New("invalid source map length")
+			}
 			sz := int(length / 2)
 			// always put size to the map to decode faster
 			o.SourceMap = make(map[int]int, sz)
@@ -1197,6 +1260,10 @@ func (sf *SourceFile) UnmarshalBinary(data []byte) error {
 		return err
 	}
 
+	// every line takes at least one byte
+	if v < 0 || v > int64(rd.Len()) {
+		return errors.New("invalid number of lines")
+	}
 	length := int(v)
 
 	lines := make([]int, length)
@@ -1259,6 +1326,10 @@ func (sfs *SourceFileSet) UnmarshalBinary(data []byte) error {
 		return err
 	}
 
+	// every file takes at least one byte
+	if v < 0 || v > int64(rd.Len()) {
+		return errors.New("invalid number of files")
+	}
 	length := int(v)
 	files := make([]*parser.SourceFile, length)
 
@@ -1266,6 +1337,9 @@ func (sfs *SourceFileSet) UnmarshalBinary(data []byte) error {
 		v, err = vi.read()
 		if err != nil {
 			return err
+		}
+		if v < 0 || v > int64(rd.Len()) {
+			return io.ErrUnexpectedEOF
 		}
 		data := make([]byte, v)
 		if _, err = io.ReadFull(rd, data); err != nil {
